@@ -71,11 +71,11 @@ class Model:
             raise Unsupported(f"call {path}.{name}() has no contract@{node.lineno}")
         return h(eng, st, args, node, **kwargs) if kwargs else h(eng, st, args, node)
 
-    def call_global(self, eng, st, name, args, node):
+    def call_global(self, eng, st, name, args, node, **kwargs):
         h = self.global_calls.get(name)
         if h is None:
             raise Unsupported(f"call {name}() has no contract@{node.lineno}")
-        return h(eng, st, args, node)
+        return h(eng, st, args, node, **kwargs) if kwargs else h(eng, st, args, node)
 
     def getitem(self, eng, st, path, idx, node):
         h = self.items.get(path)
